@@ -31,7 +31,13 @@ fn valid(v: u16) -> bool {
 
 /// all pairwise clauses that do not need the derived key
 fn pair_clauses(a: u16, b: u16) -> Result<(), String> {
+    // conversion must be a function of the value: convert a, then b, then each again in isolation
     let (ra, rb) = (HandRank::from(a), HandRank::from(b));
+    let (ra2, rb2) = (HandRank::from(a), HandRank::from(a));
+    let rb3 = HandRank::from(b);
+    if ra2 != rb2 || ra != ra2 || rb != rb3 {
+        return Err(format!("HandRank::from is not a function of its argument: from({}) then from({}) gave {:?} / {:?}, repeating the conversions gives {:?} / {:?}", a, b, (ra.value, ra.name), (rb.value, rb.name), (ra2.value, ra2.name), (rb3.value, rb3.name)));
+    }
     let c = guard(|| ra.cmp(&rb)).map_err(|m| format!("cmp panicked: {}", m))?;
     let d = |x: u16| format!("from({})", x);
     if ra.partial_cmp(&rb) != Some(c) {
@@ -112,14 +118,42 @@ pub fn run(run: &mut Run) -> PResult {
         use rayon::prelude::*;
         (0..65536usize).into_par_iter().map(|a| ranks.iter().filter(|rb| **rb < ranks[a]).count() as u32).collect()
     };
+    // conversions feeding the comparison must be functions of the value: related pairs (a, b) are
+    // converted afresh, a immediately before b, and compared (thorough: every pair, in pass 2)
+    let fresh_all = run.tier == crate::engine::Tier::Thorough && !run.is_twin();
+    {
+        use rayon::prelude::*;
+        let bad = (0..65536usize).into_par_iter().find_map_first(|b| {
+            for a in crate::engine::u16_partners(b as u16) {
+                let ra = HandRank::from(a);
+                let rb = HandRank::from(b as u16);
+                if ra != ranks[a as usize] || rb != ranks[b] || ra.cmp(&rb) != key[a as usize].cmp(&key[b]) {
+                    return Some((a, b as u16));
+                }
+            }
+            None
+        });
+        run.generator("related ordered pairs, both ranks converted afresh back to back", "exhaustive (histories of length 2)", None, 65536 * 60, 65536 * 60, "a ranges over bit flips, offsets, shifts and truncations of b");
+        if let Some((a, b)) = bad {
+            let m = pair_clauses(a, b).err().unwrap_or_else(|| format!("from({}) converted right before from({}): a conversion or the comparison gave a different result than in the precomputed table, and the two-call sequence does not reproduce on its own", a, b));
+            return run.violation("C07.pair", &format!("({},{})", a, b), json!({"a": a, "b": b}), &m);
+        }
+    }
     // pass 2
     let acc = par_range::<A>(65536, 256, || A { pairs: 0, nontrivial: 0, fail: None }, |acc, lo, hi| {
         for a in lo as usize..hi as usize {
-            let ra = ranks[a];
             let mut bad: Option<usize> = None;
             let r = guard(|| {
                 for b in 0..65536usize {
-                    let rb = ranks[b];
+                    let (ra, rb) = if fresh_all {
+                        // thorough: both ranks are converted afresh for every pair, a immediately before b
+                        (HandRank::from(a as u16), HandRank::from(b as u16))
+                    } else {
+                        (ranks[a], ranks[b])
+                    };
+                    if ra != ranks[a] || rb != ranks[b] {
+                        return Some(b);
+                    }
                     let c = ra.cmp(&rb);
                     let mut ok = c == key[a].cmp(&key[b]);
                     ok &= ra.partial_cmp(&rb) == Some(c);
